@@ -421,7 +421,12 @@ func (h *H) genDirect(i int) {
 			ops = append(ops, dop{kind: "seq", seq: h.randSeq(rng, wf)})
 		}
 	}
-	h.directCase(fmt.Sprintf("d%d", i), mask, ops)
+	probe := "std"
+	if rng.Chance(1, 8) {
+		// the explicit-width probe is not answered, or answered with a column that is neither 1 nor 2
+		probe = []string{"silent", "col7"}[rng.Intn(2)]
+	}
+	h.directCaseProbe(fmt.Sprintf("d%d", i), mask, probe, ops)
 	if wf {
 		h.r.Count("direct-wf")
 	} else {
